@@ -131,7 +131,9 @@ func AssertMsg(label string, c bool, detail string) {
 }
 
 // Observe records a per-path observation (cross-path obligations are engine-side).
-func Observe(label string, v interface{}) { Log = append(Log, fmt.Sprintf("observe %s = %v", label, v)) }
+func Observe(label string, v interface{}) {
+	Log = append(Log, fmt.Sprintf("observe %s = %v", label, v))
+}
 
 // Reach marks a point that must be reachable (vacuity guard).
 func Reach(label string) {}
@@ -149,14 +151,14 @@ func SetEnv(key string, v interface{}) { env[key] = v }
 func GetEnv(key string) (interface{}, bool) { v, ok := env[key]; return v, ok }
 
 // Effect / diagnostic traces exist only under the symbolic executor.
-func EffectCount() int            { return 0 }
-func EffectOp(i int) string       { return "" }
-func EffectStr(i, j int) string   { return "" }
-func EffectInt(i, j int) int      { return 0 }
-func DiagCount() int              { return 0 }
-func DiagKind(i int) string       { return "" }
-func DiagFormat(i int) string     { return "" }
-func DiagArg(i, j int) string     { return "" }
+func EffectCount() int          { return 0 }
+func EffectOp(i int) string     { return "" }
+func EffectStr(i, j int) string { return "" }
+func EffectInt(i, j int) int    { return 0 }
+func DiagCount() int            { return 0 }
+func DiagKind(i int) string     { return "" }
+func DiagFormat(i int) string   { return "" }
+func DiagArg(i, j int) string   { return "" }
 
 // NativeFuncs are executed natively by the symbolic executor (concrete judges and oracles).
 var NativeFuncs = map[string]interface{}{}
@@ -201,22 +203,28 @@ func SkeletonPath(name string) string {
 
 // CaptureStderr runs f and returns what was written to standard error meanwhile (natively file
 // descriptor 2 is redirected, because convergen's loggers bind os.Stderr at start-up).
-func CaptureStderr(f func()) string {
-	tmp, err := os.CreateTemp("", "vrt-stderr")
+func CaptureStderr(f func()) string { return captureFd(2, f) }
+
+// CaptureStdout runs f and returns what the process wrote to file descriptor 1 meanwhile
+// (native replay only: the symbolic side observes print effects instead).
+func CaptureStdout(f func()) string { return captureFd(1, f) }
+
+func captureFd(fd int, f func()) string {
+	tmp, err := os.CreateTemp("", "vrt-capture")
 	if err != nil {
 		f()
 		return ""
 	}
 	defer os.Remove(tmp.Name())
-	saved, err := syscall.Dup(2)
+	saved, err := syscall.Dup(fd)
 	if err != nil {
 		f()
 		return ""
 	}
-	_ = syscall.Dup2(int(tmp.Fd()), 2)
+	_ = syscall.Dup2(int(tmp.Fd()), fd)
 	func() {
 		defer func() {
-			_ = syscall.Dup2(saved, 2)
+			_ = syscall.Dup2(saved, fd)
 			_ = syscall.Close(saved)
 		}()
 		f()
